@@ -376,6 +376,14 @@ impl ObjectReceiver {
 
         self.init_blocks_partitioning();
         self.init_object_writer(now);
+        if self.state == State::Receiving
+            && self.transfer_length == Some(0)
+            && self.object_writer.is_some()
+        {
+            // An empty object has no block, it is complete as soon as it is described by the FDT
+            self.complete(now);
+            return true;
+        }
         self.push_from_cache(now);
         self.write_blocks(0, now)
             .unwrap_or_else(|_| self.error("Fail to write blocks to storage", now, false));
